@@ -252,7 +252,9 @@ def gen_program(rnd, *, n=None, waiter_timeout=None, retry_delay=None, chain=Fal
         steps[0]["declare"].append("EvB")
         steps.append({"name": "warm", "in": ["EvB"], "nw": 1, "acts": [{"k": "hop", "type": "EvB", "done": "EvC"}]})
         total += 1
-    steps.append({"name": "join", "in": ["EvC"], "nw": 1, "acts": [{"k": "collect", "types": ["EvC"] * total}, {"k": "ret", "type": "StopEvent", "result": "const"}]})
+    # (with a warm-up chain two lineages reach the join: the result must not name the one that happened to arrive last)
+    steps.append({"name": "join", "in": ["EvC"], "nw": 1, "acts": [{"k": "collect", "types": ["EvC"] * total},
+                                                                    {"k": "ret", "type": "StopEvent", "result": ({"done": True, "in": "joined"} if warmup else "const")}]})
     keys = [f"r>start.0.{i}" for i in range(n)]
     return {"family": "idle", "steps": steps, "timeout": None, "externals": [], "meta": {"n": n, "keys": keys, "waiter_timeout": waiter_timeout, "retry_delay": retry_delay}}, keys
 
